@@ -18,7 +18,7 @@ EXHAUSTIVE = {}
 def gen(rng, tier):
     n = 1200 if tier == 'quick' else 30000
     for _ in range(n):
-        mode = rng.choice(['small', 'small', 'small', 'wide', 'medium'])
+        mode = rng.choice(['small', 'small', 'small', 'small', 'wide', 'medium', 'dense'])
         regs = R.rand_regions(rng, mode, rng.choice([0, 1, 2, 3, 5, 8]), 'ne', rng.choice([1, 2, 3]))
         if regs and rng.random() < 0.4:
             regs.insert(rng.randint(0, len(regs)), rng.choice(regs))
